@@ -46,6 +46,12 @@ def variants(L, names, rng):
     for k, n in enumerate(used):
         v4[n] = 2 + k
     out.append(("all-distinct", v4))
+    # lengths far beyond anything a test would allocate (only code is generated, nothing is executed): a lowering that
+    # switches strategy above a size threshold shows here
+    v5 = dict(L)
+    for k, n in enumerate(used):
+        v5[n] = L[n] * (4096 + 2 * k + 1)
+    out.append(("huge", v5))
     return out
 
 
@@ -106,9 +112,9 @@ def graph_of(case, op, L2, backend):
     ins = []
     for k, sh in enumerate(shapes):
         if case["fam"] in ("get_at", "update_at") and 0 < k < (len(shapes) - (1 if case["fam"] == "update_at" else 0)):
-            ins.append(np.zeros(sh, dtype=np.int64))
+            ins.append(np.broadcast_to(np.zeros((), dtype=np.int64), sh))       # zero strides: no memory, any size
         else:
-            ins.append(np.zeros(sh, dtype=np.float64))
+            ins.append(np.broadcast_to(np.zeros((), dtype=np.float64), sh))
     sizes = {n: int(v) for n, v in L2.items() if n in set(case["desc"])}
     kw = {"shift": 1} if op == "roll" else {}
     with warnings.catch_warnings():
